@@ -3,7 +3,7 @@ BASELINE = ("cd /repo && cargo nextest run --workspace --no-fail-fast --tool-con
             "--profile pb --test-threads 8 --offline || cargo test --workspace --no-fail-fast --offline")
 
 # fix: commits in /repo (no hook commits: nothing verification-specific lives in /repo)
-SOURCE_COMMITS = ["acf241c", "f232737"]
+SOURCE_COMMITS = ["acf241c", "f232737", "ddb5f3b"]
 
 CHECKS = {
     "C11": dict(
@@ -49,6 +49,17 @@ CHECKS.update({
         note=COMPUTE_NOTE,
         technique="Verus (Z3) on the verbatim body: error postconditions + panic/overflow freedom of the body and of the nix callees",
         design_ref="DESIGN.md section 4, C14"),
+    "C07": dict(
+        category="proof", engine="verus-extracted",
+        text="extract_bound_from_tracking (verbatim body) is verified by Verus to return, on every path, the value of the documented expression ceil((delay/2 + dispersion + |offset|)*10^9) "
+             "applied to the right three fields of the report (dataflow/shape proof over vstd's uninterpreted f64 operators); the numeric clauses (never negative, never smaller than the exact "
+             "sum, rounded up by less than 1 ns) then follow from an ASSUMED rounding model of that expression (A3/A4), so this is a proof modulo that model, not of IEEE arithmetic. Kani proves "
+             "on the real function and the real chrony_candm decoder that the bound is never negative for either sign of the offset (wire exponents [-35,13]) and that process_clock_update adds "
+             "the PHC error bound exactly. Found and fixed F-C07 (signed offset).",
+        note="Assumed: A3 shape axiom, A4 rounding model, cf_val stand-in for the wire-float decoder, powi exact, SystemTime::elapsed contract. A Verus failure of these float-dependent clauses is "
+             "reported as a violation only with a failing input found on the real function (native search), otherwise exit 2.",
+        technique="Verus shape/dataflow proof of the verbatim body under an assumed IEEE rounding model + Kani sign/no-negative proof on the real function + native search for replay inputs",
+        design_ref="DESIGN.md section 4, C07"),
     "C08": dict(
         category="proof", engine="kani-woven",
         text="Step contracts of ShmUpdater::process_clock_update / process_missing_clock_update / write_clock_error_bound / new and the 3x3 FSM table, proved by Kani on the real code "
